@@ -118,7 +118,9 @@ func c13Build(p c13Params) *c13World {
 		w.wantCFG = append(w.wantCFG, "#CFG:"+c13Enc(string(cfgJSON))+"\n")
 
 		sawACT := func(n int) func() bool {
-			return func() bool { return bytes.Count(w.serverIn.Written, []byte("#ACT:"))+bytes.Count(w.serverIn.Written, []byte("#FAIL:")) >= n }
+			return func() bool {
+				return bytes.Count(w.serverIn.Written, []byte("#ACT:"))+bytes.Count(w.serverIn.Written, []byte("#FAIL:")) >= n
+			}
 		}(round + 1)
 		sawAnswer := func(n int) func() bool {
 			return func() bool {
